@@ -116,6 +116,15 @@ CHECKS["C13"] = dict(
     parts=[rapid_part("rapid", "compose", "TestC13", 4000, 40000, replay_test="TestC13Replay")],
 )
 
+CHECKS["C08"] = dict(
+    technique="model-based property testing (rapid) of stream operation histories: generated reader forests (Pipe/array, Copy, Merge, Convert) x send/recv/close histories, online reference model per (reader, source); sequential and concurrent execution under the race detector",
+    level_text="Generated histories over generated reader forests: pipes of capacity 0-4 and array sources; Copy(2-4), MergeStreamReaders of 2-7 readers (static select and reflect.Select), StreamReaderWithConvert (map / drop via ErrNoValue / fail) nested to any depth, also derived in the middle of a history; sends of values and error items, closeSend, recv, close of any leaf. Every received item is checked online against a model that tracks, per (reader, source), the last sequence number seen: no loss, no duplication, no reordering, right value through the converts on the path, EOF only after every source below ended, copy siblings agree item by item, a writer is told 'closed' only after (and soon after) every derived reader was closed, nothing panics, nothing stays blocked once every reader is closed. One quarter of the cases run with one goroutine per reader/writer and generated yields; the whole check runs under -race.",
+    level_note="The Go scheduler is not owned: interleavings inside peek/close are sampled through yields, not enumerated. Closing one reader twice and merging two readers that share a source are outside the contract / the oracle and are not generated. 'Blocked forever' is decided after a 20 s grace period with all readers closed (state dump attached).",
+    rule="rapid draws sources, derivations and a history (3-40 ops); non-trivial = the forest contains a copy and a merge or convert, >= 3 receives happened, and one of: a copy closed before a sibling finished, a merge of >= 6 sources, a send after all readers closed, a derivation in mid-history; distinct = FNV-1a of case JSON",
+    assumptions=["single owner per reader (no concurrent Recv/Close on one reader)", "values are ints tagged with source and sequence number"],
+    parts=[rapid_part("rapid", "schema", "TestC08", 6000, 40000, race=True, replay_test="TestC08Replay", replay_reps=20)],
+)
+
 # properties not claimed (with reason); everything else not in CHECKS is "not built yet"
 NOT_APPLICABLE = {}
 
